@@ -112,13 +112,13 @@ func (dt DateTime) TryEqual(input Any) (bool, bool) {
 	if !ok {
 		return false, true
 	}
-	if dt.l == val.l {
+	if dt.l == val.l && dt.hasTime() {
 		return dt.dateTime.Equal(val.dateTime), true
 	}
 
 	// normalize time zone
-	dt.dateTime = dt.dateTime.UTC()
-	val.dateTime = val.dateTime.UTC()
+	dt.dateTime = dt.normalized()
+	val.dateTime = val.normalized()
 
 	dtComponents := dt.getComponents()
 	valComponents := val.getComponents()
@@ -147,13 +147,13 @@ func (dt DateTime) Less(input Any) (Boolean, error) {
 	if !ok {
 		return false, fmt.Errorf("%w, %T, %T", ErrTypeMismatch, dt, input)
 	}
-	if dt.l == val.l {
+	if dt.l == val.l && dt.hasTime() {
 		return Boolean(dt.dateTime.Before(val.dateTime)), nil
 	}
 
 	// normalize time zone
-	dt.dateTime = dt.dateTime.UTC()
-	val.dateTime = val.dateTime.UTC()
+	dt.dateTime = dt.normalized()
+	val.dateTime = val.normalized()
 
 	dtComponents := dt.getComponents()
 	valComponents := val.getComponents()
@@ -171,6 +171,23 @@ func (dt DateTime) Less(input Any) (Boolean, error) {
 		return false, nil // equal values of the same precision
 	}
 	return false, ErrMismatchedPrecision
+}
+
+// hasTime reports whether dt has a time-of-day part. A value of day precision or
+// coarser carries no offset: it is compared by its calendar components, never as
+// an instant (a FHIR element holds the midnight of whatever default time zone it
+// was read in).
+func (dt DateTime) hasTime() bool {
+	return dateTimeMap[dt.l] > dtDay
+}
+
+// normalized returns the time whose components take part in a comparison: the
+// UTC time for a value with a time-of-day part, the calendar date as is otherwise.
+func (dt DateTime) normalized() time.Time {
+	if dt.hasTime() {
+		return dt.dateTime.UTC()
+	}
+	return dt.dateTime
 }
 
 // Add returns the result of dt + input. Returns an
